@@ -157,7 +157,7 @@ def cases(tier, seed):
         i += 1
         uniq = rng.random() < 0.5
         n = rng.randint(1, 12)
-        has_index = rng.random() < 0.45
+        has_index = rng.random() < 0.3
         batching = rng.random() < 0.85
         kw = rng.choice([(6, 2, 1), (3, 3, 2), (1, 0, 0), (2, 4, 1)]) if has_index else rng.choice([(6, 0, 1), (1, 0, 0), (3, 0, 3)])
         kinds = [rng.choices(["batch", "search", "list"], weights=kw)[0] for _ in range(n)]
@@ -385,6 +385,7 @@ def _pick(rng, script, pos, enabled, w):
 
 
 def run_case(case):
+    import os
     import shutil
     import tempfile
 
@@ -393,7 +394,8 @@ def run_case(case):
     rng = random.Random(case["seed"])
     kinds, texts, items = case["kinds"], case["texts"], case["items"]
     n = len(kinds)
-    tmpdir = tempfile.mkdtemp(prefix="c19cache_") if case["cache"].startswith("fs") else None
+    shm = "/dev/shm" if os.path.isdir("/dev/shm") and os.access("/dev/shm", os.W_OK) else None
+    tmpdir = tempfile.mkdtemp(prefix="c19cache_", dir=shm) if case["cache"].startswith("fs") else None
     ctl = Ctl(rng, case["instant"])
     _CUR[0] = ctl
     loop = W["VLoop"]()
